@@ -138,9 +138,16 @@ func (d *Document) ArgumentSetsAreEquals(left, right []int) bool {
 	if len(left) != len(right) {
 		return false
 	}
-	for i := range left {
-		leftArgument, rightArgument := left[i], right[i]
-		if !d.ArgumentsAreEqual(leftArgument, rightArgument) {
+	// arguments are an unordered set: every left argument needs an equal right argument
+	for _, leftArgument := range left {
+		found := false
+		for _, rightArgument := range right {
+			if d.ArgumentsAreEqual(leftArgument, rightArgument) {
+				found = true
+				break
+			}
+		}
+		if !found {
 			return false
 		}
 	}
